@@ -12,6 +12,7 @@ G  harness/cmd/paths replays each printed path against the real code: os.Resolve
 V  random odd / Unicode segments (seeded), abstracted to segment classes, judged by the same operators.
 A mismatch is re-executed (fresh driver run, fresh TLC run) before it is reported.
 """
+import concurrent.futures
 import json
 import os
 import re
@@ -160,6 +161,24 @@ def _run(cx, drv, quick, maxsegs, fsmax, nrand, work):
     mism += [("rand", m) for m in judge(cx, rand_shards, tree, "v")]
     cx.log("leg V: %d random paths replayed and judged; %d mismatching observations so far" % (len(rcases), len(mism)))
 
+    # ---- leg R: every base spelled RELATIVE to the working directory (".", "./", "a/..", "./."): the driver changes
+    # directory, so each process has one worker; read-only operations only (the working directory must stay valid)
+    rel_cases = [c for c in cases if len(c["segs"]) <= min(fsmax, 4)] + rcases[:(300 if quick else 3000)]
+    rel_cases = [dict(c, id=n + 1) for n, c in enumerate(rel_cases)]
+    nrel = 8 if quick else 14
+    rel_ins, rel_outs = [], []
+    for k in range(nrel):
+        rel_ins.append(cx.path("rel_in%d.ndjson" % k))
+        rel_outs.append(cx.path("rel_obs%d.ndjson" % k))
+        vlib.write_ndjson(rel_ins[k], rel_cases[k::nrel])
+    with concurrent.futures.ThreadPoolExecutor(max_workers=nrel) as ex:
+        futs = [ex.submit(cx.run, [drv, "replay", "-in", rel_ins[k], "-out", rel_outs[k], "-work", os.path.join(work, "rel%d" % k),
+                                   "-fsmax", "99", "-relbase"], timeout=6000) for k in range(nrel)]
+        for f in futs:
+            f.result()
+    mism += [("rel", m) for m in judge(cx, rel_outs, tree, "r")]
+    cx.log("leg R: %d paths replayed on relatively spelled bases; %d mismatching observations so far" % (len(rel_cases), len(mism)))
+
     # ---- binding self-test: corrupted observations must be rejected by PathsCheck
     self_test(cx, enum_shards[0], tree)
 
@@ -169,7 +188,7 @@ def _run(cx, drv, quick, maxsegs, fsmax, nrand, work):
         by_case.setdefault((src, cid), []).append((leg, k, exp))
     confirmed = 0
     if by_case:
-        lookup = {"enum": {c["id"]: c for c in cases}, "rand": {c["id"]: c for c in rcases}}
+        lookup = {"enum": {c["id"]: c for c in cases}, "rand": {c["id"]: c for c in rcases}, "rel": {c["id"]: c for c in rel_cases}}
         keys = sorted(by_case)
         chosen = pick_representatives(keys, by_case, 40)
         re_in = cx.path("recheck.ndjson")
@@ -180,7 +199,7 @@ def _run(cx, drv, quick, maxsegs, fsmax, nrand, work):
             rows.append(c)
         vlib.write_ndjson(re_in, rows)
         re_out = cx.path("recheck_obs.ndjson")
-        cx.run([drv, "replay", "-in", re_in, "-out", re_out, "-work", work, "-j", "1"])
+        cx.run([drv, "replay", "-in", re_in, "-out", re_out, "-work", work, "-j", "1"] + (["-relbase"] if any(sc == "rel" for sc, _ in chosen) else []))
         obs = {o["id"]: o for o in vlib.read_ndjson(re_out)}
         again = {}
         for (cid, leg, k, exp) in judge(cx, [re_out], tree, "recheck"):
@@ -214,6 +233,7 @@ def _run(cx, drv, quick, maxsegs, fsmax, nrand, work):
         "paths_enumerated": len(cases),
         "paths_random": len(rcases),
         "paths_with_localfs_leg": nfs_paths + len(rcases),
+        "paths_on_relatively_spelled_bases": len(rel_cases),
         "evaluations": evaluations,
         "distinct_nontrivial": distinct_nt,
         "traces_validated_against_impl": len(cases) + len(rcases),
@@ -224,6 +244,8 @@ def _run(cx, drv, quick, maxsegs, fsmax, nrand, work):
                 "trailing separator, enumerated by TLC (exhaustive), each replayed on os.ResolvePath (3 bases), on a VirtualOS with "
                 "recording mounts (5 mount tables x 3 cwds x 14 FS methods, both arguments of rename/symlink; MkdirTemp pattern) and, for <= %d segments, "
                 "on a real localfs.Filesystem (3 bases x 18 method variants) over a temp tree with sentinels outside the base; "
+                "leg R: the enumerated paths with <= 4 segments and a sample of the random ones on the same three bases spelled relative to "
+                "the working directory ('.', './', 'a/..', './.'; read-only methods); "
                 "leg V: %d seeded random paths with odd/Unicode segments (not exhaustive); one evaluation = one operation on the real "
                 "code judged by PathsCheck.tla; non-trivial = the string contains a '.', '..' or empty segment or a trailing separator"
                 % (maxsegs, fsmax, len(rcases)),
@@ -246,7 +268,7 @@ def _replay(cx, drv, work):
     cx.run([drv, "tree", "-work", work, "-out", tree])
     inp, out = cx.path("replay_in.ndjson"), cx.path("replay_obs.ndjson")
     vlib.write_ndjson(inp, [c])
-    cx.run([drv, "replay", "-in", inp, "-out", out, "-work", work, "-j", "1"])
+    cx.run([drv, "replay", "-in", inp, "-out", out, "-work", work, "-j", "1", "-relbase"])
     obs = vlib.read_ndjson(out)[0]
     items = judge(cx, [out], tree, "replay")
     cx.cover.update({"evaluations": 1, "distinct_nontrivial": 1 if nontrivial(c) else 0, "traces_validated_against_impl": 1,
